@@ -238,7 +238,16 @@ func (t *Tables) DrawPool(rt *rapid.T, excPool []string) []Term {
 	for i := 0; i < n; i++ {
 		label := fmt.Sprintf("t%d", i)
 		kind := rapid.IntRange(0, 9).Draw(rt, label+"Kind")
+		var earlierRefs []Term
+		for _, e := range pool {
+			if e.Kind == "ref" {
+				earlierRefs = append(earlierRefs, e)
+			}
+		}
 		switch {
+		case kind <= 2 && len(earlierRefs) > 0 && rapid.Bool().Draw(rt, label+"RefSibling"):
+			// a sibling of an earlier reference: other case, other / no DocumentRef
+			pool = append(pool, t.sibling(rt, rapid.SampledFrom(earlierRefs).Draw(rt, label+"RefSibOf"), excPool, label))
 		case kind <= 1:
 			ref := DrawRefTerm(rt, label)
 			if len(pool) > 0 && rapid.IntRange(0, 3).Draw(rt, label+"Lookalike") == 0 {
